@@ -133,7 +133,7 @@ func (f *Funcs) PushBlobChunked(ctx context.Context, repo string, chunkSize int)
 }
 
 func (f *Funcs) PushBlobChunkedResume(ctx context.Context, repo, id string, offset int64, chunkSize int) (BlobWriter, error) {
-	if f != nil && f.PushBlobChunked_ != nil {
+	if f != nil && f.PushBlobChunkedResume_ != nil {
 		return f.PushBlobChunkedResume_(ctx, repo, id, offset, chunkSize)
 	}
 	return nil, f.newError(ctx, "PushBlobChunked", repo)
